@@ -253,7 +253,50 @@ def real_sweep_run(ctx, rep, workdir):
         ctx.violation(f"C14:real-sweep-raised-{type(e).__name__}", f"export / import / evaluation of a sweep solved by a Solver raised {type(e).__name__}: {str(e)[:80]}", rep)
 
 
+def trace_monitor(ctx, rng, workdir):
+    """translator of `Generated/InPulse.lean` vs the running code *and the real text layers*: the traced coefficients (YAML, CSV and
+    interp1d replaced by what they are assumed to be), evaluated at random complex stacks, must equal what a real export to a file
+    followed by a real Model_from_InPulse gives at both exported points and at the midpoint, without and with the mode mapping"""
+    from translate import inpulse as ti
+    from common import REPO
+    L = impl.lk()
+    try:
+        traced = ti.trace(str(REPO))
+    except Exception as e:  # noqa  (already a broken obligation of the Lean stage)
+        ctx.notes.append(f"InPulse tracer: {type(e).__name__}: {str(e)[:200]}")
+        return
+    for i in range(ctx.budget(6, 40)):
+        r = np.random.default_rng(rng.randrange(2 ** 32))
+        S = r.normal(size=(ti.K, 3, 3)) + 1j * r.normal(size=(ti.K, 3, 3))
+        env = {f"(S {k} {a} {b})": complex(S[k, a, b]) for k in range(ti.K) for a in range(3) for b in range(3)}
+        rep = {"kind": "trace", "S": [[[[float(z.real), float(z.imag)] for z in row] for row in Sk] for Sk in S]}
+        ctx.case(rep, tags=["traced-inpulse"])
+        try:
+            sm = L.SolvedModel(pin_dic={L.Pin(b, m): i_ for b, m, i_ in ti.PINS}, param_dic={"wl": np.array(ti.WL)}, Smatrix=S.copy())
+            path = str(workdir / f"trace_{i}.txt")
+            sm.export_InPulse(path, units={"wl": "um"})
+            for label, mm in (("plain", None), ("mapped", dict(ti.MODE_MAP))):
+                back = L.Model_from_InPulse(path, mode_mapping=mm)
+                res, _pins = traced[label]
+                for tag, wl in (("n0", ti.WL[0]), ("n1", ti.WL[1]), ("mid", 0.5 * (ti.WL[0] + ti.WL[1]))):
+                    X = np.asarray(back.solve(wl=wl).S)[0]
+                    for (a, b), e in res[tag].items():
+                        ba, ma, _ = ti.PINS[a]
+                        bb, mb, _ = ti.PINS[b]
+                        pa = L.Pin(ba, ma) if mm is None else L.Pin(ba, None if mm[ma] == "" else mm[ma])
+                        pb = L.Pin(bb, mb) if mm is None else L.Pin(bb, None if mm[mb] == "" else mm[mb])
+                        got = X[back.pin_dic[pa], back.pin_dic[pb]]
+                        want = complex(e.eval(env))
+                        if abs(got - want) > 1e-9:
+                            ctx.disagreement("C14.translator.inpulse", f"{label} {tag} ({a},{b}): traced {want:.6f}, real file round trip {got:.6f}", rep)
+                            return
+        except Exception as e:  # noqa
+            ctx.disagreement("C14.translator.inpulse", f"{type(e).__name__}: {str(e)[:100]}", rep)
+            return
+
+
 def run(ctx):
+    trace_monitor(ctx, ctx.subrng("c14-trace"), ctx.workdir)
     rng = ctx.subrng("c14")
     rrng = ctx.subrng("c14-real")
     for _ in range(ctx.budget(25, 300)):
@@ -273,6 +316,8 @@ def run(ctx):
 
 
 def replay(ctx, data):
+    if isinstance(data, dict) and data.get("kind") == "trace":
+        return True, "regenerated stream (translator validation); not replayed"
     if isinstance(data, dict) and data.get("kind") == "real-sweep":
         real_sweep_run(ctx, data, ctx.workdir)
         if ctx.violations:
